@@ -527,6 +527,22 @@ bool Parser::parse_patch_header(Patch& patch, PatchHeaderInfo& header_info, int 
         auto last_line_looks_like = this_line_looks_like;
         this_line_looks_like = Format::Unknown;
 
+        // A line of the first hunk of a unified diff may itself look like a file header (such as the removal of
+        // a line starting with "-- "), so this needs to be looked for before anything else.
+        if ((patch.format == Format::Unknown || patch.format == Format::Unified) && last_line_looks_like == Format::Unified
+            && (starts_with(line, "+") || starts_with(line, "-") || starts_with(line, " "))) {
+            // NOTE: We need to swap back the old and new lines. The old line was parsed as a new
+            //       line below since both context patches and unified use '---' for a path
+            //       header, but mean different things. Implement this in the simplest way (instead
+            //       of storing more names) by storing unified paths the wrong way around and
+            //       switching them back so that there is no overlap.
+            std::swap(patch.old_file_path, patch.new_file_path);
+            std::swap(patch.old_file_time, patch.new_file_time);
+            patch.format = Format::Unified;
+            found_first_hunk = true;
+            break;
+        }
+
         // Look for any file headers in the patch header telling up what the old and new file names are.
         if ((last_line_looks_like != Format::Context && parser.consume_specific("*** "))
             || parser.consume_specific("+++ ")) {
@@ -583,19 +599,6 @@ bool Parser::parse_patch_header(Patch& patch, PatchHeaderInfo& header_info, int 
         // make an attempt to determine what format this is.
 
         if (patch.format == Format::Unknown || patch.format == Format::Unified) {
-            if (last_line_looks_like == Format::Unified && (starts_with(line, "+") || starts_with(line, "-") || starts_with(line, " "))) {
-                // NOTE: We need to swap back the old and new lines. The old line was parsed as a new
-                //       line above since both context patches and unified use '---' for a path
-                //       header, but mean different things. Implement this in the simplest way (instead
-                //       of storing more names) by storing unified paths the wrong way around and
-                //       switching them back so that there is no overlap.
-                std::swap(patch.old_file_path, patch.new_file_path);
-                std::swap(patch.old_file_time, patch.new_file_time);
-                patch.format = Format::Unified;
-                found_first_hunk = true;
-                break;
-            }
-
             if (parse_unified_range(hunk, line)) {
                 this_line_looks_like = Format::Unified;
                 header_info.lines_till_first_hunk = lines;
